@@ -78,6 +78,10 @@ func Generate(rng *rand.Rand, i int, thorough bool) *p2prig.Scenario {
 		if s.Engine == "legacy" {
 			s.BanDurationMs = []int{3600000, 3600000, 1}[rng.Intn(3)]
 		}
+		if s.Engine == "legacy" && !ns.OrphanForbidden && s.BanDurationMs >= 60000 && rng.Intn(2) == 0 {
+			// the offender behaves from then on: a later connection of the (banned) host that were admitted would stay
+			ns.OffendOnce = true
+		}
 		if s.Engine == "legacy" && !ns.OrphanForbidden && rng.Intn(2) == 0 {
 			// at the end: a second host offends, its ban elapses unnoticed, it offends again over a connection it kept
 			s.ReOffend = true
